@@ -206,6 +206,24 @@ def _c16_check(sim, srv, pool, cls):
                     if squeeze(first.replace("%%", "%")) not in squeeze(rep):
                         sim.violate("C16", "member_description", f"'{cmd} {flag}' does not describe the member: {first!r} missing from {rep[:90]!r}")
                         return
+    # "available as a command": the extra members that need no argument are also CALLED once (they are harmless), each
+    # must be answered at once - also the synchronous one that hands back a pending awaitable - and so must what follows
+    callable_now = [n for n in ("drained", "blank_doc", "slots_for", "drain", "extra_ro", "spaced_doc") if n in pub]
+    if callable_now:
+        first = len(top.lines)
+        for n in callable_now:
+            sim.exec_step({"op": "line", "c": top.label, "text": n.replace("_", "-")})
+        sim.exec_step({"op": "line", "c": top.label, "text": "num-running"})
+        sim.run_to_idle()
+        got = top.replies()
+        if len(got) < len(top.lines):
+            sim.violate("C16", "member_call_unanswered", f"command {top.lines[len(got)].strip()!r} (a public member needing no argument) was not answered: "
+                        f"{len(got) - first} replies for {len(callable_now) + 1} lines")
+            return
+        if not re.match(r"\d+\n?$", got[-1]):
+            sim.violate("C16", "member_call_reply", f"'num-running' after the member calls answered with {got[-1][:60]!r}")
+            return
+        sim.stats["c16_members_called"] += len(callable_now)
     replies = top.replies()
     if top_idx >= len(replies):
         sim.violate("C16", "help_unanswered", f"top-level '{flag}' got no reply")
@@ -277,7 +295,7 @@ def gen_command(rng, cls, short=False):
         direct_pos.extend([e, c])
 
     if k == "apply":
-        fn = rng.choice(["work", "job", "mutator", "alias", "alias", "nightly"])
+        fn = rng.choice(["work", "job", "mutator", "alias", "alias", "nightly", "_hidden"])
         text = ["apply", ("tpsim.ctlpkg." if fn == "nightly" else W) + fn]
         args, kwargs, num, gname = (), None, 1, None
         if rng.random() < 0.5:
@@ -704,6 +722,8 @@ def c18_run(rng):
             steps.append({"op": "run", "n": rng.choice([1, 3, 10, 40])})
         if rng.random() < 0.15:
             steps.append({"op": "gate", "k": rng.randrange(6)})
+            if rng.random() < 0.35:
+                steps[-1]["x"] = 1          # that worker fails (round 14)
     if rng.random() < 0.3:
         # a scripted client: a few more lines in one go, then it closes its sending side and only reads from then on
         c = rng.randrange(nsess) + 1
@@ -813,6 +833,11 @@ def c19_run(rng):
                 seq.append({"op": "close", "c": lab, "how": how})
         else:
             lines = [rng.choice(["num-running", "is-locked", "pool-size", "NUM-RUNNING", "  is-full  ", ""]) for _ in range(rng.choice([0, 1, 2, 3]))]
+            if rng.random() < 0.15:
+                # a reply of several KiB (well below the client's read size of 100 KiB), then ordinary ones: every reply is
+                # still printed under its own command
+                big = ["start 1200", "stop-all"] if cfg["cls"] == "S" else ["apply tpsim.ctlworkers.work -n 1200 -g bigcli%d" % lab, "get-group-ids bigcli%d" % lab]
+                lines = big + ["num-running", "is-locked"] + lines
             if rng.random() < 0.5:
                 lines.append("exit")
             seq = [{"op": "cli", "c": lab, "lines": lines, "main": kind == "main"}]
